@@ -497,3 +497,99 @@ fn find_index_walk() {
     }}
     println!("NO-WITNESS find_index_walk");
 }
+
+/// clauses TextSelection::{relative_offset, relative_begin/end(_endaligned), textselection_by_offset, absolute_offset}  (C04):
+/// for every selection inside every container over a 9-position text and all four offset modes, the reported relative
+/// offset re-resolves (inside the container) to the same absolute range; selections not inside are rejected
+#[test]
+fn find_relative_offsets() {
+    let n = 9usize;
+    for cb in 0..=n { for ce in cb..=n { for b in 0..=n { for e in b..=n {
+        let container = ts(cb, ce);
+        let sel = ts(b, e);
+        let inside = cb <= b && e <= ce;
+        for mode in [OffsetMode::BeginBegin, OffsetMode::BeginEnd, OffsetMode::EndEnd, OffsetMode::EndBegin] {
+            let got = std::panic::catch_unwind(|| sel.relative_offset(&container, mode));
+            let bad = match &got {
+                Err(_) => Some("panic".to_string()),
+                Ok(None) => if inside { Some("None for an embedded selection".to_string()) } else { None },
+                Ok(Some(off)) => {
+                    if !inside { Some(format!("{:?} for a selection that is not embedded", off)) } else {
+                        match container.textselection_by_offset(off) {
+                            Ok(t) if t.begin() == b && t.end() == e => None,
+                            other => Some(format!("{:?} re-resolves to {:?}", off, other.map(|t| (t.begin(), t.end())).ok())),
+                        }
+                    }
+                }
+            };
+            if let Some(msg) = bad {
+                println!("WITNESS {{\"clause\":\"TextSelection::relative_offset\",\"selection\":\"{}..{}\",\"container\":\"{}..{}\",\"mode\":\"{:?}\",\"problem\":{:?}}}", b, e, cb, ce, mode, msg);
+                return;
+            }
+        }
+    }}}}
+    // acceptance: an offset is accepted by a selection exactly when it denotes a range inside that selection
+    for cb in 0..=n { for ce in cb..=n {
+        let container = ts(cb, ce);
+        let len = (ce - cb) as isize;
+        let cursors = |v: isize| -> Vec<Cursor> { let mut c = vec![Cursor::EndAligned(v)]; if v >= 0 { c.push(Cursor::BeginAligned(v as usize)); } c };
+        let rel = |c: &Cursor| -> Option<isize> { match c { Cursor::BeginAligned(x) => Some(*x as isize), Cursor::EndAligned(x) => if *x <= 0 && -*x <= len { Some(len + *x) } else { None } } };
+        for bv in -(len + 2)..=(len + 2) { for ev in -(len + 2)..=(len + 2) { for bc in cursors(bv) { for ec in cursors(ev) {
+            let off = Offset::new(bc, ec);
+            let want = match (rel(&bc), rel(&ec)) { (Some(b), Some(e)) => 0 <= b && b <= e && e <= len, _ => false };
+            let got = std::panic::catch_unwind(|| container.textselection_by_offset(&off));
+            let bad = match &got { Ok(Ok(t)) => !want || Some((t.begin() - cb) as isize) != rel(&bc) || Some((t.end() - cb) as isize) != rel(&ec), Ok(Err(_)) => want, Err(_) => true };
+            if bad {
+                println!("WITNESS {{\"clause\":\"TextSelection::textselection_by_offset/accept_iff\",\"container\":\"{}..{}\",\"offset\":\"{:?}\",\"accepted\":{},\"should_accept\":{}}}", cb, ce, off, matches!(got, Ok(Ok(_))), want);
+                return;
+            }
+        }}}}
+    }}
+    println!("NO-WITNESS find_relative_offsets");
+}
+
+/// clauses subselectors__merge / subselectors__resolve  (C01, C19): a complex selector over any sequence of up to 3 of 10 simple
+/// targets (text selections of two resources created in a scrambled order, and annotations) gives back exactly those targets
+#[test]
+fn find_subselectors() {
+    // (resource, begin, end) for text targets; annotation index for annotation targets
+    #[derive(Clone, Copy, PartialEq, Debug)]
+    enum T { Text(usize, usize, usize), Ann(usize) }
+    let texts: Vec<(usize, usize, usize)> = vec![(0, 4, 5), (0, 0, 1), (0, 1, 2), (1, 0, 1), (1, 1, 2), (1, 2, 3), (0, 2, 3)];
+    let pool: Vec<T> = texts.iter().map(|(r, b, e)| T::Text(*r, *b, *e)).chain((0..3).map(T::Ann)).collect();
+    let mut seqs: Vec<Vec<usize>> = vec![];
+    let mut frontier: Vec<Vec<usize>> = vec![vec![]];
+    for _ in 0..3 { let mut next = vec![]; for s in &frontier { for x in 0..pool.len() { if !s.contains(&x) { let mut t = s.clone(); t.push(x); next.push(t); } } } seqs.extend(next.clone()); frontier = next; }
+    let rid = ["r0", "r1"];
+    for kind in 0..3 { for seq in &seqs {
+        if seq.len() < 2 { continue; }
+        let mut store = AnnotationStore::default()
+            .with_resource(TextResourceBuilder::new().with_id("r0").with_text("abcdefghij")).unwrap()
+            .with_resource(TextResourceBuilder::new().with_id("r1").with_text("klmnopqrst")).unwrap()
+            .with_dataset(AnnotationDataSetBuilder::new().with_id("d")).unwrap();
+        // create the text selections first (annotations T0..T6 on them), so that their handles are fixed and not in text order
+        for (k, (r, b, e)) in texts.iter().enumerate() { store.annotate(AnnotationBuilder::new().with_id(format!("T{}", k)).with_target(SelectorBuilder::textselector(rid[*r], Offset::simple(*b, *e))).with_data("d", "k", "v")).unwrap(); }
+        let sb = |t: &T| match t { T::Text(r, b, e) => SelectorBuilder::textselector(rid[*r], Offset::simple(*b, *e)), T::Ann(i) => SelectorBuilder::annotationselector(format!("T{}", 2 * i), None) };
+        let subs: Vec<SelectorBuilder> = seq.iter().map(|i| sb(&pool[*i])).collect();
+        let target = match kind { 0 => SelectorBuilder::multiselector(subs), 1 => SelectorBuilder::compositeselector(subs), _ => SelectorBuilder::directionalselector(subs) };
+        let r = std::panic::catch_unwind(std::panic::AssertUnwindSafe(|| store.annotate(AnnotationBuilder::new().with_id("X").with_target(target).with_data("d", "k", "w"))));
+        let problem = match r {
+            Err(_) => Some("panic".to_string()),
+            Ok(Err(e)) => Some(format!("rejected: {}", e)),
+            Ok(Ok(_)) => {
+                let x = store.annotation("X").unwrap();
+                let mut got: Vec<String> = x.textselections().map(|t| format!("{}:{}-{}", t.resource().id().unwrap(), t.begin(), t.end())).collect();
+                got.extend(x.annotations_in_targets(AnnotationDepth::One).map(|a| a.id().unwrap().to_string()));
+                let mut want: Vec<String> = seq.iter().filter_map(|i| match pool[*i] { T::Text(r, b, e) => Some(format!("{}:{}-{}", rid[r], b, e)), _ => None }).collect();
+                want.extend(seq.iter().filter_map(|i| match pool[*i] { T::Ann(i) => Some(format!("T{}", 2 * i)), _ => None }));
+                got.sort(); want.sort();
+                if got != want { Some(format!("targets {:?}, built with {:?}", got, want)) } else { store_inconsistency(&store) }
+            }
+        };
+        if let Some(msg) = problem {
+            println!("WITNESS {{\"clause\":\"subselectors\",\"kind\":{},\"targets\":\"{:?}\",\"problem\":{:?}}}", kind, seq.iter().map(|i| pool[*i]).collect::<Vec<_>>(), msg);
+            return;
+        }
+    }}
+    println!("NO-WITNESS find_subselectors");
+}
